@@ -56,6 +56,8 @@ type propDef struct {
 	Stub       []string
 	Assume     []string
 	MemLimitKB int // address-space limit of each worker process (0 = none)
+	Env        []string // extra environment of the worker processes
+	Unscheduled bool    // tier T2: no scheduler, replay reproduces outcomes only (stability is measured)
 }
 
 var props = map[string]*propDef{}
@@ -446,6 +448,10 @@ func runWorkers(bin string, p *propDef, mode, tier string, seed uint64, runs int
 					"VERIF_RUNS="+strconv.Itoa(runs), "VERIF_MAXWALL_MS="+strconv.FormatInt(maxWall.Milliseconds(), 10),
 					"VERIF_OUT="+out, "VERIF_REPLAY="+replay, "VERIF_SCRATCH="+scratch, "TMPDIR="+scratch, "GOGC=200",
 					"VERIF_START="+strconv.Itoa(startIdx))
+				cmd.Env = append(cmd.Env, p.Env...)
+				if p.Unscheduled {
+					cmd.Env = append(cmd.Env, "VERIF_UNSCHEDULED=1")
+				}
 				cmd.Env = append(cmd.Env, extraEnv...)
 				logf, _ := os.Create(logPath)
 				cmd.Stdout, cmd.Stderr = logf, logf
@@ -657,6 +663,21 @@ func cmdCheck(id, tier string) int {
 		stable := rerr == nil && rr[0] != nil && rr[0].ReplayMatch != nil && *rr[0].ReplayMatch
 		if stable && v.Class == "process-crash" {
 			stable = len(rr[0].Violations) > 0 && rr[0].Violations[0].Signature == v.Signature
+		}
+		if p.Unscheduled {
+			// replay exactness is measured, not assumed: 5 fresh processes
+			hits := 0
+			if stable {
+				hits++
+			}
+			for i := 0; i < 4; i++ {
+				r2, e2 := runWorkers(bin, p, "replay", tier, seed, 1, 5*time.Minute, 1, path, nil)
+				if e2 == nil && r2[0] != nil && r2[0].ReplayMatch != nil && *r2[0].ReplayMatch {
+					hits++
+				}
+			}
+			fmt.Printf("  replay_stability=%d/5 (unscheduled tier: the replay reproduces the outcome, not a decision log)\n", hits)
+			stable = hits > 0
 		}
 		fmt.Printf("VIOLATION property=%s replay=%s\n", id, path)
 		fmt.Printf("  class=%s signature=%s runs=%d steps=%d fresh-process-replay=%v\n  %s\n", v.Class, v.Signature, v.Count, v.Steps, stable, truncate(v.Detail, 600))
